@@ -159,8 +159,15 @@ impl Property for C02 {
     fn liveness(&self) -> bool {
         true
     }
+    fn fuzz(&self) -> Option<crate::FuzzSpec> {
+        Some(crate::FuzzSpec { label: "c02-gen", max_len: 160, runs: 30000 })
+    }
     fn run(&self, ctx: &mut Ctx) {
         watchdog::start(std::time::Duration::from_secs(self.case_limit_s()), |t| json!({"text": t}));
+        'enumerations: {
+        if ctx.fuzzing() {
+            break 'enumerations;
+        }
         let mut local: HashSet<u64> = HashSet::new();
         let full: Vec<&str> = FULL.iter().map(|t| t.text).collect();
         for len in 1..=3usize {
@@ -217,11 +224,13 @@ impl Property for C02 {
         }
         ctx.space("nesting ladders", k);
         watchdog::idle();
+        }
 
         // prefixes of corpus files (sharded by index)
         let corpus = corpus();
         let mut k = 0u64;
-        for (_, src) in &corpus {
+        let generated_only = ctx.fuzzing();
+        for (_, src) in corpus.iter().filter(|_| !generated_only) {
             let bounds: Vec<usize> = src.char_indices().map(|(i, _)| i).collect();
             let step = ctx.tier.pick(3, 1);
             for (j, &b) in bounds.iter().enumerate() {
